@@ -271,7 +271,14 @@ class World:
                            and not c.released]
                 free = not self.ctx.db_lock
                 npolls = len(self.polls)
-                self.clock.advance(dt)
+                try:
+                    self.clock.advance(dt)
+                except Exception as exc:  # pylint: disable=broad-except
+                    # a timed call of the lock protocol raised: the reactor
+                    # would log it and carry on, the protocol is broken
+                    out.fail('reactor/timed-call-raised',
+                             f'{where}: {type(exc).__name__}: {exc}')
+                    return
                 self.pump(out, where)
                 polled = [self.by_worker(p[0]) for p in self.polls[npolls:]]
                 polled = [c for c in polled if c in waiting]
